@@ -7,6 +7,7 @@ import (
 	"fmt"
 	"io"
 	"strconv"
+	"strings"
 	"sync"
 	"time"
 	"unicode/utf8"
@@ -875,6 +876,33 @@ func needsQuoting(val string) bool {
 	return false
 }
 
+// printableLines escapes everything in a multi-line text that is not a
+// printable rune, a line break or a tab, so that the error dump cannot
+// send control or escape bytes of an error text to the terminal.
+func printableLines(txt string) string {
+	if !needsQuoting(strings.NewReplacer("\n", "", "\t", "").Replace(txt)) {
+		return txt
+	}
+	buf := make([]byte, 0, len(txt)+16)
+	for i := 0; i < len(txt); {
+		r, n := utf8.DecodeRuneInString(txt[i:])
+		switch {
+		case r == '\n' || r == '\t':
+			buf = append(buf, byte(r))
+		case r == utf8.RuneError && n == 1:
+			buf = append(buf, '\\', 'x', hex[txt[i]>>4], hex[txt[i]&0xF])
+		case strconv.IsPrint(r):
+			buf = append(buf, txt[i:i+n]...)
+		case r < ' ' || r == 0x7f:
+			buf = append(buf, '\\', 'x', hex[byte(r)>>4], hex[byte(r)&0xF])
+		default:
+			buf = append(buf, strings.Trim(strconv.QuoteRuneToASCII(r), "'")...)
+		}
+		i += n
+	}
+	return string(buf)
+}
+
 func (s *PrintCtx) pcQuoteValue(val string) {
 	// s.pcAppendByte('"')
 	// s.appendEscapedJSONString(val)
@@ -1235,9 +1263,9 @@ func (s *PrintCtx) appendErrorAfterPrinted(err error) {
 					s.cachedSource.Extract(uintptr(frame))
 					s.pcAppendStringKey("       error: ")
 					if s.noColor {
-						s.pcAppendString(f.Error())
+						s.pcAppendString(printableLines(f.Error()))
 					} else {
-						ct.wrapColorAndBgTo(s, clrError, clrNone, f.Error())
+						ct.wrapColorAndBgTo(s, clrError, clrNone, printableLines(f.Error()))
 					}
 					s.pcAppendByte('\n')
 					s.pcAppendStringKey("   file/line: ")
@@ -1272,7 +1300,7 @@ func (s *PrintCtx) appendErrorAfterPrinted(err error) {
 			// 	}
 			// }
 			s.pcAppendByte('\n')
-			txt := ct.pad(stackInfo, "    ", 1)
+			txt := ct.pad(printableLines(stackInfo), "    ", 1)
 			if s.noColor {
 				s.pcAppendString(txt)
 			} else {
